@@ -633,6 +633,14 @@ type evalEnv struct {
 	bound  map[string]Val
 	fr     *Frame
 	loop   *loopInfo
+	cur    *State // the post-state while evaluating inside old(...): the call log is always read from it
+}
+
+func (env *evalEnv) logState() *State {
+	if env.cur != nil {
+		return env.cur
+	}
+	return env.st
 }
 
 func (env *evalEnv) with(name string, v Val) *evalEnv {
@@ -875,7 +883,11 @@ func (e *Engine) selField(base Val, name string, env *evalEnv) Val {
 	if pt, ok := t.Underlying().(*types.Pointer); ok && kindOf(t) == kPtr {
 		// implicit dereference
 		hn, hs := e.vc.heapName(pt.Elem())
-		base = Val{S: app("select", e.heap(env.st, hn, hs), base.S), T: pt.Elem()}
+		st := env.st
+		if base.Log {
+			st = env.logState()
+		}
+		base = Val{S: app("select", e.heap(st, hn, hs), base.S), T: pt.Elem(), Log: base.Log}
 		t = types.Unalias(pt.Elem())
 	}
 	st, ok := t.Underlying().(*types.Struct)
@@ -888,7 +900,7 @@ func (e *Engine) selField(base Val, name string, env *evalEnv) Val {
 			if ss.opaque {
 				e.vc.declFun(ss.fields[i], []string{ss.name}, e.vc.sortOf(ss.ftypes[i]))
 			}
-			return Val{S: app(ss.fields[i], base.S), T: st.Field(i).Type()}
+			return Val{S: app(ss.fields[i], base.S), T: st.Field(i).Type(), Log: base.Log}
 		}
 	}
 	// embedded
@@ -997,6 +1009,9 @@ func (e *Engine) evalCall(y *ECall, env *evalEnv) Val {
 			break
 		}
 		sub := *env
+		if sub.cur == nil {
+			sub.cur = env.st
+		}
 		sub.st = env.old
 		return e.eval(y.Args[0], &sub)
 	case "len":
@@ -1044,7 +1059,7 @@ func (e *Engine) evalCall(y *ECall, env *evalEnv) Val {
 			if ok1 && ok2 {
 				hn := "callret_" + mangle(f.Name) + "_" + n.Val
 				if t, ok := e.callArgTypes[hn]; ok {
-					return Val{S: e.heap(env.st, hn, e.heapSorts[hn]), T: t}
+					return Val{S: e.heap(env.logState(), hn, e.heapSorts[hn]), T: t, Log: true}
 				}
 				return e.evalErr("contract-stale: no call of " + f.Name + " on any path")
 			}
@@ -1057,7 +1072,7 @@ func (e *Engine) evalCall(y *ECall, env *evalEnv) Val {
 			if ok1 && ok2 {
 				hn := "callarg_" + mangle(f.Name) + "_" + mangle(p.Name)
 				if t, ok := e.callArgTypes[hn]; ok {
-					return Val{S: e.heap(env.st, hn, e.heapSorts[hn]), T: t}
+					return Val{S: e.heap(env.logState(), hn, e.heapSorts[hn]), T: t, Log: true}
 				}
 				return e.evalErr("contract-stale: no call of " + f.Name + " with parameter " + p.Name + " on any path")
 			}
